@@ -75,6 +75,24 @@ pub open spec fn round_def(m: Mode, X: int, D: int, r: int) -> bool {
     }
 }
 
+/// sanity of the definition: under every mode an exact value has at most one rounding
+pub proof fn lemma_round_def_unique(m: Mode, X: int, D: int, r1: int, r2: int)
+    requires D > 0, round_def(m, X, D, r1), round_def(m, X, D, r2)
+    ensures r1 == r2
+{
+    let k = r1 - r2;
+    let kd = k * D;
+    assert(kd == r1 * D - r2 * D) by (nonlinear_arith) requires kd == (r1 - r2) * D;
+    assert(-2 * D < kd && kd < 2 * D);
+    assert(k == 0 || k == 1 || k == -1) by (nonlinear_arith) requires kd == k * D, -2 * D < kd, kd < 2 * D, D > 0;
+    assert(k == 1 ==> kd == D) by (nonlinear_arith) requires kd == k * D;
+    assert(k == -1 ==> kd == -D) by (nonlinear_arith) requires kd == k * D;
+    // x == 0: the only multiple of D strictly inside (-D, D) is 0
+    let (R1, R2) = (r1 * D, r2 * D);
+    assert(-D < R1 && R1 < D ==> r1 == 0) by (nonlinear_arith) requires R1 == r1 * D, D > 0;
+    assert(-D < R2 && R2 < D ==> r2 == 0) by (nonlinear_arith) requires R2 == r2 * D, D > 0;
+}
+
 /// numerator over 4 of a representative of the class (sign(l), |l| cmp 1/2) of a remainder 0 < |l| < 1:
 /// +-1/4, +-1/2, +-3/4
 pub open spec fn rep4(s: Sign, o: Ordering) -> int {
@@ -117,3 +135,48 @@ pub proof fn lemma_round_exact(m: Mode, i: int, d: int)
     ensures round_def(m, i * d, d, i + adj_int(Rounding::NoOp))
 {
 }
+
+// ------------------------------------------------------------------------------------------------
+// truncating division (quotient towards zero, remainder with the sign of the dividend)
+
+/// truncating division: a == q*b + r, |r| < |b|, r == 0 or sign(r) == sign(a)
+pub open spec fn is_trunc_divrem(a: int, b: int, q: int, r: int) -> bool {
+    a == q * b + r && iabs(r) < iabs(b) && (r == 0 || (r > 0) == (a > 0))
+}
+
+/// (q+1)*d and (q-1)*d spelled out
+pub proof fn lemma_qd(q: int, d: int)
+    ensures (q + 1) * d == q * d + d, (q - 1) * d == q * d - d
+{
+    assert((q + 1) * d == q * d + d) by (nonlinear_arith);
+    assert((q - 1) * d == q * d - d) by (nonlinear_arith);
+}
+
+/// consequences of the truncating-division contract for a positive divisor
+pub proof fn lemma_divrem_facts(num: int, den: int, q: int, r: int)
+    requires den > 0, is_trunc_divrem(num, den, q, r)
+    ensures
+        (q + 1) * den == q * den + den, (q - 1) * den == q * den - den,
+        num == 0 ==> r == 0,
+        round_def(Mode::Zero, num, den, q),          // the truncated quotient is the rounding towards zero
+{
+    lemma_qd(q, den);
+    let qd = q * den;
+    assert(q >= 1 ==> qd >= den) by (nonlinear_arith) requires qd == q * den, den > 0;
+    assert(q <= -1 ==> qd <= -den) by (nonlinear_arith) requires qd == q * den, den > 0;
+    assert(q == 0 ==> qd == 0) by (nonlinear_arith) requires qd == q * den;
+}
+
+/// the rounding towards zero is unique: any t satisfying the definition is the library's quotient
+pub proof fn lemma_trunc_unique(num: int, den: int, q: int, r: int, t: int)
+    requires den > 0, is_trunc_divrem(num, den, q, r), round_def(Mode::Zero, num, den, t)
+    ensures t == q
+{
+    lemma_divrem_facts(num, den, q, r);
+    let k = t - q;
+    let kd = k * den;
+    assert(kd == t * den - q * den) by (nonlinear_arith) requires kd == (t - q) * den;
+    assert(-den < kd && kd < den);
+    assert(k == 0) by (nonlinear_arith) requires kd == k * den, -den < kd, kd < den, den > 0;
+}
+
